@@ -1131,3 +1131,8 @@ PROPS["C10"]["does_not_cover"] = [x for x in PROPS["C10"]["does_not_cover"] if "
 UNIT_META["free_list"]["functions"] = UNIT_META["free_list"]["functions"] + ["table::ValueTable::init_table_data"]
 UNIT_META["free_list"]["assumes"] = UNIT_META["free_list"]["assumes"] + ["init_table_data: TableFile::read_at into the 10-byte cursor is a contract (the cursor holds the bytes stored at the offset; slot i at offset i * entry_size); partial correctness -- a cyclic on-disk list would make the real loop spin (not a claim here); fill mark times entry size fits in u64"]
 PROPS["C14"]["claim"] = PROPS["C14"]["claim"] + " At start-up ValueTable::init_table_data (Verus, any list length) builds the stack so that it mirrors the on-disk free list -- top = list head, every slot links to the one below, every free slot below the fill mark -- which is the invariant claim_entries / next_free / clear_slot assume and keep; a link at or beyond the fill mark is reported as corruption."
+
+# ---------------------------------------------------------------- U74 extension: the table header record
+UNIT_META["free_list"]["functions"] = UNIT_META["free_list"]["functions"] + ["table::ValueTable::complete_plan"]
+UNIT_META["free_list"]["assumes"] = UNIT_META["free_list"]["assumes"] + ["complete_plan: Header::{default, set_last_removed, set_filled} and `buf.0.to_vec()` are contracts over an uninterpreted 16-byte header codec (Kani U5 on the real Header); AtomicBool::compare_exchange has its std meaning on a plain cell"]
+PROPS["C14"]["claim"] = PROPS["C14"]["claim"] + " ValueTable::complete_plan (Verus) writes the header to the log exactly when the list head or the fill mark changed since it was last written, with their current values, and takes the change flag down."
